@@ -1,7 +1,157 @@
-import Uft.Model.Fstack
-/- C07 — Analysis-time filters mean the same as record-time filters. -/
+import Uft.Lemmas.FstackTop
+/- C07 — Analysis-time filters mean the same as record-time filters.
+
+Model: Uft/Model/Fstack.lean (utils/fstack.c: the look-ahead of get_task_ustack, fstack_entry /
+fstack_exit / fstack_update, fstack_check_filter, fstack_skip / fstack_check_skip; the loops of
+cmds/replay.c, report.c, graph.c, dump.c, script.c) and Uft/Model/Mcount.lean (the record-time
+hooks, C02/C05).  `spec` is the documented selection as a structurally recursive function on
+call trees: `pruneCalls` (-t, time=, trace, -C) then `specCalls` (-F, -N, -D, -L, -H, depth=),
+with the environment passed down only. -/
 namespace Uft.C07
 open Uft.Mcount Uft.Fstack
+
+/-- **State restoration.**  For every trigger table and option set (filter / notrace / depth /
+    hide / location / time / trace / trace_on / trace_off / caller, --no-libcall …), every call
+    tree and every state of the reader: after the records of a complete call the filter state
+    of fstack_entry / fstack_exit — in_count, out_count, remaining depth, the open calls' flags
+    and saved depths, stack_count — is what it was before the call.  A filter hit never leaks
+    into later sibling calls at analysis time. -/
+theorem c07_state_restored (c : RCfg) (x : Call) (d : Nat) (s : FS) (hs : s.scSet = true) :
+    (endA c s (evCall d x)).core = s.core :=
+  (restoredA_call c x d s hs).1
+
+/-- … and the same for any forest of calls. -/
+theorem c07_state_restored_forest (c : RCfg) (xs : Calls) (d : Nat) (s : FS) (hs : s.scSet = true) :
+    (endA c s (evCalls d xs)).core = s.core :=
+  (restoredA_calls c xs d s hs).1
+
+/-- **The look-ahead time filter.**  On the record file of any call forest the look-ahead of
+    get_task_ustack (list with delete-last, per-task threshold override stack of time= triggers,
+    -C, trace) hands over, in order, exactly the calls that ran at least the threshold active
+    for them, or carry the trace trigger, or have such a call below them (`pruneCalls`). -/
+theorem c07_time_filter_spec (c : RCfg) (hr : NoRange c) (xs : Calls) (ho : Calls.ordered xs) :
+    lookahead c (evCalls 0 xs) = evCalls 0 (pruneCalls c false c.threshold xs) :=
+  lookahead_forest c hr xs ho
+
+example : NoRange {} ∧ Calls.ordered (.cons (.node 1 10 20 (.cons (.node 2 12 12 .nil) .nil)) .nil) := by
+  simp [NoRange, Calls.ordered, Call.ordered]
+
+/-- **Every command shows the documented selection.**  Tracing on, no trace_on / trace_off
+    trigger, no -r, no --no-libcall: for every option set over -F -N -D -t -C -H -L and
+    filter / notrace / depth= / time= / trace / hide / caller triggers and every call forest,
+    replay (with leaf folding through fstack_skip, or --no-merge), report, graph,
+    dump --chrome, --flame-graph etc. and script show exactly `spec`. -/
+theorem c07_replay_refines_spec (c : RCfg) (hq : Quiet c) (hnl : c.noLibcall = false) (hr : NoRange c)
+    (hen : c.enabled0 = true) (xs : Calls) (ho : Calls.ordered xs) (cmd : Cmd) :
+    cmdOut c cmd (evCalls 0 xs) = spec c false xs := by
+  have hg := good_initSet c hen hr
+  have hla := lookahead_forest c hr xs ho
+  have hA : runSteps (stepA c) (FS.init c) (lookahead c (evCalls 0 xs)) = spec c false xs := by
+    rw [hla, runSteps_init, ← run_snd, specA_calls c hq hnl _ 0 (initSet c) hg.scSet hg.en hg.ds]
+    rfl
+  cases cmd with
+  | replay =>
+    show runB c ⟨FS.init c, none⟩ (lookahead c (evCalls 0 xs)) = _
+    rw [hla, runB_init, runB_eq, (both_calls c hq hnl _).1 0 (initSet c) hg]
+    rw [envOf_initSet]
+    simp [flushPend, spec, initSet, FS.init]
+  | script =>
+    show runSteps (stepC c) (FS.init c) (lookahead c (evCalls 0 xs)) = _
+    rw [stepC_eq_stepA c hnl]; exact hA
+  | report => exact hA
+  | graph => exact hA
+  | dump => exact hA
+
+example : Quiet {} ∧ ({} : RCfg).noLibcall = false ∧ ({} : RCfg).enabled0 = true := by
+  simp [Quiet]
+
+/-- **The commands agree** (same hypotheses): any two of replay, report, graph, dump, script
+    accept the same call sequence. -/
+theorem c07_commands_agree (c : RCfg) (hq : Quiet c) (hnl : c.noLibcall = false) (hr : NoRange c)
+    (hen : c.enabled0 = true) (xs : Calls) (ho : Calls.ordered xs) (cmd1 cmd2 : Cmd) :
+    cmdOut c cmd1 (evCalls 0 xs) = cmdOut c cmd2 (evCalls 0 xs) := by
+  rw [c07_replay_refines_spec c hq hnl hr hen xs ho cmd1, c07_replay_refines_spec c hq hnl hr hen xs ho cmd2]
+
+/-- report, graph, dump and script run the same fstack_check_filter / fstack_entry automaton:
+    without --no-libcall they agree on *every* record stream and option set, including
+    trace_on / trace_off triggers, --trace=off and -r. -/
+theorem c07_commands_agree_any_stream (c : RCfg) (hnl : c.noLibcall = false) (rs : List Rec) :
+    cmdOut c .report rs = cmdOut c .graph rs ∧ cmdOut c .graph rs = cmdOut c .dump rs ∧
+    cmdOut c .dump rs = cmdOut c .script rs := by
+  refine ⟨rfl, rfl, ?_⟩
+  show runSteps (stepA c) _ _ = runSteps (stepC c) _ _
+  rw [stepC_eq_stepA c hnl]
+
+/-- raw `uftrace dump` reads the task files directly (no look-ahead): it agrees with the other
+    commands when no time filter of any kind (-t, time=, -C) is active. -/
+theorem c07_dumpraw_agrees (c : RCfg) (hq : Quiet c) (hnl : c.noLibcall = false) (hr : NoRange c)
+    (hen : c.enabled0 = true) (hnt : NoTimeFilter c) (xs : Calls) :
+    outDumpRaw c (evCalls 0 xs) = spec c false xs := by
+  have hg := good_initSet c hen hr
+  simp only [outDumpRaw, filter_inRange c hr, spec, hnt.1, prune_id_calls c hnt]
+  rw [runSteps_init, ← run_snd, specA_calls c hq hnl _ 0 (initSet c) hg.scSet hg.en hg.ds]
+  rfl
+
+/-- with --no-libcall the commands differ (finding S8): a user function called from a PLT
+    function — a callback — under `-D 2 --no-libcall`: script (and replay --no-merge) drop the PLT
+    record before the filter sees it and show the callback; replay, report, graph and dump let
+    the PLT function use up a depth level and do not. -/
+theorem c07_nolibcall_disagree_witness :
+    cmdOut { depthOpt := 2, noLibcall := true, plt := fun f => f == 1 } .script
+        (evCalls 0 (.cons (.node 0 10 50 (.cons (.node 1 20 40 (.cons (.node 2 25 30 .nil) .nil)) .nil)) .nil)) ≠
+    cmdOut { depthOpt := 2, noLibcall := true, plt := fun f => f == 1 } .report
+        (evCalls 0 (.cons (.node 0 10 50 (.cons (.node 1 20 40 (.cons (.node 2 25 30 .nil) .nil)) .nil)) .nil)) := by
+  decide
+
+/-- **MAIN — record time = replay time, -F / -N / -D.**  For every table of -F / -N entries,
+    every -D, both hook families (-pg and -mfentry with the repair of F4, and
+    -finstrument-functions), every forest of timed, properly nested calls within --max-stack:
+    the records the hooks write with the options equal what every analysis command shows when
+    the same options are applied to the unfiltered eager trace. -/
+theorem c07_record_eq_replay (cfg : Cfg) (h : FND cfg) (ht0 : cfg.threshold = 0) (k : Kind) (cs : Calls) (n : Nat)
+    (hh : cs.height ≤ cfg.maxStack) (hn : Calls.allDurLe n cs) (cmd : Cmd) :
+    (runCalls cfg k (St.init cfg) cs).out = cmdOut (RCfg.ofRecord cfg) cmd (evCalls 0 cs) := by
+  have hq : Quiet (RCfg.ofRecord cfg) := by
+    intro f; show (cfg.trig f).traceOn = false ∧ (cfg.trig f).traceOff = false; rw [h.trig f]; exact ⟨rfl, rfl⟩
+  have hnt : ∀ f, ((RCfg.ofRecord cfg).trig f).time = none := by
+    intro f; show (cfg.trig f).time = none; rw [h.trig f]
+  rw [record_out cfg h k cs n hh hn,
+    c07_replay_refines_spec (RCfg.ofRecord cfg) hq rfl ⟨rfl, rfl⟩ h.en cs (ordered_of_allDurLe cs n hn) cmd]
+  simp only [spec]
+  have : (RCfg.ofRecord cfg).threshold = 0 := ht0
+  rw [this, prune_strict_calls (RCfg.ofRecord cfg) cs 0 (noBoundary_zero_calls _ hnt cs n hn)]
+
+/-- **… and with -t**, for forests in which no call ran exactly as long as the threshold
+    (record time keeps `> t`, replay time `≥ t`: `c07_time_boundary_witness`). -/
+theorem c07_record_eq_replay_partial (cfg : Cfg) (h : FND cfg) (k : Kind) (cs : Calls) (n : Nat)
+    (hh : cs.height ≤ cfg.maxStack) (hn : Calls.allDurLe n cs)
+    (hb : Calls.noBoundary (RCfg.ofRecord cfg) cfg.threshold cs) (cmd : Cmd) :
+    (runCalls cfg k (St.init cfg) cs).out = cmdOut (RCfg.ofRecord cfg) cmd (evCalls 0 cs) := by
+  have hq : Quiet (RCfg.ofRecord cfg) := by
+    intro f; show (cfg.trig f).traceOn = false ∧ (cfg.trig f).traceOff = false; rw [h.trig f]; exact ⟨rfl, rfl⟩
+  rw [record_out cfg h k cs n hh hn,
+    c07_replay_refines_spec (RCfg.ofRecord cfg) hq rfl ⟨rfl, rfl⟩ h.en cs (ordered_of_allDurLe cs n hn) cmd]
+  simp only [spec]
+  have hthr : (RCfg.ofRecord cfg).threshold = cfg.threshold := rfl
+  rw [hthr, prune_strict_calls (RCfg.ofRecord cfg) cs _ hb]
+
+/-- the record side alone: what the hooks write is the documented selection with `>` -/
+theorem c07_record_refines_spec (cfg : Cfg) (h : FND cfg) (k : Kind) (cs : Calls) (n : Nat)
+    (hh : cs.height ≤ cfg.maxStack) (hn : Calls.allDurLe n cs) :
+    (runCalls cfg k (St.init cfg) cs).out = spec (RCfg.ofRecord cfg) true cs :=
+  record_out cfg h k cs n hh hn
+
+/-- non-vacuity: `-F f1 -N f3 -D 2 -t 5` with a three-level forest meets all hypotheses -/
+example :
+    let cfg : Cfg := { depthOpt := 2, threshold := 5, optIn := true,
+                       trig := fun f => { filter := if f = 1 then some true else if f = 3 then some false else none } }
+    let cs : Calls := .cons (.node 1 10 60 (.cons (.node 2 20 40 (.cons (.node 3 25 28 .nil) .nil)) .nil)) .nil
+    FND cfg ∧ cs.height ≤ cfg.maxStack ∧ Calls.allDurLe 100 cs ∧
+      Calls.noBoundary (RCfg.ofRecord cfg) cfg.threshold cs := by
+  refine ⟨⟨rfl, rfl, rfl, rfl, rfl, rfl, fun f => ?_⟩, by decide, ?_, ?_⟩
+  · simp only
+  · simp [Calls.allDurLe, Call.nestOK, Call.dur]
+  · simp [Calls.noBoundary, Call.noBoundary, RCfg.ofRecord]
 
 /-- S4 (boundary of -t): a call that ran exactly the threshold is dropped when the
     threshold is given at record time (`>`), and shown when it is given at replay time (`≥`). -/
